@@ -16,6 +16,7 @@ import NemoVerif.Lemmas.V1Compile
 import NemoVerif.Lemmas.Expand
 import NemoVerif.Lemmas.ExpandPath
 import NemoVerif.Lemmas.ExpandInPlace
+import NemoVerif.Lemmas.ExpandNames
 namespace NemoVerif.C12
 open NemoVerif NemoVerif.Closed NemoVerif.V1Compile NemoVerif.Expand
 
@@ -248,6 +249,26 @@ theorem v1_undefined_goto_rejected (items : List Item) (i : Nat) (e : Elem) (n :
     rw [hn] at h1; cases h1
     exact absurd h7 (hundef k lab h5 h6)
 
+/-- Flows added at run time (`_process_start_flow`, multi-step generation): the generated body is compiled like any flow
+    and a `start_flow` element is inserted IN FRONT of the already computed offsets — all offsets are relative (absolute
+    jumps are `-1`), so the result still passes the checker's property. -/
+theorem v1_dynamic_flow_in_bounds (items : List Item) (es : List Elem) (h : dynamicFlow items = .ok es) :
+    OffsetsInBounds es ∧ Resolved es := by
+  unfold dynamicFlow at h
+  cases hc : compileFull items with
+  | error m => rw [hc] at h; cases h
+  | ok es0 =>
+    rw [hc] at h
+    cases h
+    obtain ⟨h1, h2⟩ := v1_offsets_in_bounds items es0 hc
+    exact prepend_plain_ok es0 h1 h2
+
+/-- non-vacuity: a generated body with a loop and a break (finite fact, by evaluation) -/
+example : (match dynamicFlow [.simple "UserIntent", .whileS [.ifS [.simple "break"] [], .simple "run_action"]] with
+    | .ok es => v1Closed es && es.length == 7
+    | .error _ => false) = true := by
+  decide
+
 /-- non-vacuity: a backward and a forward goto (finite fact, by evaluation) -/
 example : (match compileFull [.label "a", .goto "b", .simple "user", .label "b", .goto "a"] with
     | .ok es => es.map (·.next) == [some 1, some 2, none, some 1, some (-4)]
@@ -344,10 +365,47 @@ example : wfList [.whileS [.ifS [.brk] [.cont]]] = true ∧ Unlabelled [none, no
   refine ⟨by decide, ?_, by decide, by decide⟩
   intro o ho; simpa using ho
 
-/-- as is, programs in which no Break / Continue sits inside a loop are not affected: partial statement excluding exactly
-    the finding's region is `recompile_first_is_expand` + the fact that only `Break` / `Continue` carry state; the harness
-    checks every re-compilation of the real compiler with the proved checker `closed` (families v2rt / v2ast:again). -/
-example : closed (recompile true [.ifS [.brk] [], .whileS [.send]] 1 [none] 0).1 = true := by decide
+/-- Partial statement for the code AS IT IS, excluding exactly the finding's region (`exitFree false ss`: no `break` /
+    `continue` under a `while`, directly or through `if`): every compilation of the same parsed flow is closed. -/
+theorem recompile_as_is_closed_partial (ss : List Stmt) (hwf : wfList ss = true) (he : exitFree false ss = true)
+    (k : Nat) (sl : Slots) (c : Nat) (h : Unlabelled sl) : Closed (recompile true ss k sl c).1 :=
+  recompile_as_is_exitFree_closed ss hwf he k sl c h
+
+/-- non-vacuity: a `break` outside any loop (its label stays None) and a loop without exits (finite facts) -/
+example : wfList [.ifS [.brk] [], .whileS [.send, .awaitG [[⟨.flow, false⟩], [⟨.action, false⟩]]]] = true ∧
+    exitFree false [.ifS [.brk] [], .whileS [.send, .awaitG [[⟨.flow, false⟩], [⟨.action, false⟩]]]] = true ∧
+    exitFree false [.whileS [.ifS [.brk] []]] = false := by decide
+
+/-! ### Names of generated labels against user labels (phase 4)
+
+  `FlowConfig.element_labels` is ONE name space for the labels the compiler generates and the labels the user writes
+  (`my_label:`).  The model keeps generated labels as `(prefix, uid)`; `render` is the name.  `stems` lists the fixed
+  beginnings of all generated names.  Hypothesis on user labels, explicit and executable: `userLabelOK u` — no stem is a
+  prefix of `u` (run by the harness, through the driver, on every user label of every real program; the stems are checked
+  against every generated label of the real compiler). -/
+
+/-- every label defined by ANY expansion (any nesting, any loop context, any counter value) has a name that begins with
+    one of the reserved stems -/
+theorem expand_labels_stemmed (cb : Option (Lbl × Lbl)) (ss : List Stmt) (c : Nat) (l : Lbl)
+    (h : Prim.label l ∈ (expand cb ss c).1) : Stemmed (render l) :=
+  stemmed_render l (expand_lab cb ss c l h)
+
+/-- fresh-name discipline: a user label that respects `userLabelOK` is different from the name of every label the
+    expansion of a flow defines and from the name of every jump / fork / failure-handler / loop-exit target it emits —
+    a generated label never captures a user `goto`, a generated jump never lands on a user label. -/
+theorem expand_labels_avoid_user (ss : List Stmt) (hwf : wfList ss = true) (u : String) (hu : userLabelOK u = true) :
+    (∀ l, Prim.label l ∈ expandFlow ss → render l ≠ u) ∧
+    (∀ e ∈ expandFlow ss, ∀ l ∈ e.targets, render l ≠ u) := by
+  have key : ∀ l, Prim.label l ∈ expandFlow ss → render l ≠ u := by
+    intro l hl heq
+    exact userLabelOK_sound u hu (heq ▸ expand_labels_stemmed none ss 0 l hl)
+  exact ⟨key, fun e he l hl => key l ((expand_closed ss hwf).targets e he l hl)⟩
+
+/-- non-vacuity: ordinary user labels satisfy the discipline, a label that imitates a generated one does not
+    (finite facts, by evaluation) -/
+example : userLabelOK "lbl_0" = true ∧ userLabelOK "start_over" = true ∧ userLabelOK "_while_end_7" = false ∧
+    userLabelOK "group_label" = false := by
+  decide
 
 /-! ### Path-level safety of ALL expansions (phase 3)
 
